@@ -75,6 +75,18 @@ async fn bmp_read<T: AsyncRead + Unpin>(
     // Don't call BmpMsg::check() as it requires the rest of the message to have already been read
     let _version = &msg_buf[0];
     let len = u32::from_be_bytes(msg_buf[1..5].try_into().unwrap()) as usize;
+    if len < 6 {
+        // Shorter than the BMP common header (version, length, type): the
+        // stream is not BMP or is corrupt. Without this check `resize`
+        // below shrinks the buffer and slicing it at 5 panics.
+        return Err((
+            rx,
+            std::io::Error::new(
+                ErrorKind::InvalidData,
+                "BMP message length is shorter than the common header",
+            ),
+        ));
+    }
     msg_buf.resize(len, 0u8);
     if let Err(err) = rx.read_exact(&mut msg_buf[5..]).await {
         return Err((rx, err));
